@@ -7,6 +7,7 @@ import (
 	"fmt"
 	"net"
 	"os"
+	"runtime"
 	"sync"
 	"time"
 
@@ -259,6 +260,7 @@ type StressScen struct {
 	Addr    string  `json:"addr"`
 	Reloads int     `json:"reloads"`
 	Rounds  int     `json:"rounds"`
+	Churn   int     `json:"churn"` // server lifetimes cancelled while connections keep arriving
 }
 
 func cmdConcStress(args []string) {
@@ -343,6 +345,45 @@ func runStress(rec *Rec, sc *StressScen) {
 	close(stopReload)
 	wg.Wait()
 	r.stop()
+	// shutdown while connections keep arriving: the accept loop, the connection goroutines it has just started and
+	// the final wait run against each other
+	for k := 0; k < sc.Churn; k++ {
+		r.start()
+		lis := r.lis
+		stopOffer := make(chan struct{})
+		var ow sync.WaitGroup
+		for g := 0; g < 2; g++ {
+			ow.Add(1)
+			go func(g int) {
+				defer ow.Done()
+				for n := 0; ; n++ {
+					select {
+					case <-stopOffer:
+						return
+					default:
+					}
+					ta := parseAddr(sc.Addr)
+					ta.Port = 20000 + (k*1000+n*2+g)%40000
+					fc := NewFakeConn(900000+n, ta, nil)
+					fc.quiet = true
+					if n%3 == 0 {
+						fc.Feed([]byte{0xc0, 1, 1, 1, 0, 0, 0, byte(n), 0, 0, 0, 0})
+					}
+					fc.EOF()
+					lis.Offer(fc)
+					if n%4 == 3 {
+						runtime.Gosched()
+					}
+				}
+			}(g)
+		}
+		for i := 0; i < 20+37*k%400; i++ {
+			runtime.Gosched()
+		}
+		r.stop()
+		close(stopOffer)
+		ow.Wait()
+	}
 	changed := []int{}
 	for i := range cfgs {
 		if norm(cfgs[i]) != snaps[i] {
